@@ -71,6 +71,8 @@ pub struct TState {
     /// seeded short reads on jubako's reader-side streams (per mille), and their PRNG
     pub short_read_pm: u64,
     pub short_rng: Option<simcore::prng::Rng>,
+    /// simulated time: PRNG deciding which timed waits time out (knob `timeout_fire_pm`)
+    pub time_rng: Option<simcore::prng::Rng>,
     /// output I/O fault points (C09 T pass): consulted at every output operation of the creators
     pub io_handler: Option<Box<dyn FnMut(&verif_rt::io::IoOp) -> verif_rt::io::IoDecision + Send>>,
 }
@@ -131,6 +133,20 @@ impl verif_rt::Hooks for THooks {
             n
         }
     }
+    fn timeout_fires(&self, site: &'static str) -> bool {
+        let mut st = self.st.lock().unwrap();
+        *st.counts.entry("timed_wait_reached").or_insert(0) += 1;
+        let pm = st.knobs.get("timeout_fire_pm").copied().unwrap_or(0);
+        if pm == 0 {
+            return false;
+        }
+        let fire = st.time_rng.as_mut().map(|r| r.below(1000) < pm).unwrap_or(false);
+        if fire {
+            *st.counts.entry("fault:timeout-elapsed-first").or_insert(0) += 1;
+            let _ = site;
+        }
+        fire
+    }
     fn io(&self, op: &verif_rt::io::IoOp) -> verif_rt::io::IoDecision {
         let mut st = self.st.lock().unwrap();
         match st.io_handler.as_mut() {
@@ -168,6 +184,7 @@ impl THooks {
         st.next_instance = 0;
         st.record_events = record_events;
         st.io_handler = None;
+        st.time_rng = Some(simcore::prng::Rng::derive(st.knobs.get("timeout_seed").copied().unwrap_or(0), "timed-waits", 0));
         // the pseudo-knob "stream_short_read_pm" switches reader-side short reads on
         st.short_read_pm = st.knobs.get("stream_short_read_pm").copied().unwrap_or(0);
         st.short_rng = Some(simcore::prng::Rng::derive(st.knobs.get("stream_short_read_seed").copied().unwrap_or(0), "short-reads", 0));
